@@ -98,6 +98,114 @@ theorem claim_moves (s s' : QState) (now now2 : Nat) (r : Entry)
     intro x hx hne
     exact mem_kvDel.mpr ⟨hx, hne⟩
 
+/-! ## Eventually executed: a due task is handed out after boundedly many claims -/
+
+/-- The pending entries that may be handed out before `t`: not later than `t`, other key. -/
+def notAfter (s : QState) (t : Entry) : Nat :=
+  (s.pending.filter fun e => decide (e.ts ≤ t.ts) && !(e.sameKey t.ts t.name)).length
+
+/-- Removing from a list an element that passes a filter makes the filtered list shorter. -/
+theorem length_filter_filter_lt {α : Type} (l : List α) (p q : α → Bool) (a : α) (ha : a ∈ l)
+    (hp : p a = true) (hq : q a = false) :
+    ((l.filter q).filter p).length < (l.filter p).length := by
+  have hle : ∀ ys : List α, ((ys.filter q).filter p).length ≤ (ys.filter p).length := by
+    intro ys
+    induction ys with
+    | nil => exact Nat.le_refl _
+    | cons y ys ihy =>
+      cases hqy : q y <;> cases hpy : p y <;>
+        simp only [List.filter_cons, hqy, hpy, if_true, if_false, Bool.false_eq_true,
+          List.length_cons] <;> omega
+  induction l with
+  | nil => cases ha
+  | cons x xs ih =>
+    rcases List.mem_cons.mp ha with rfl | hmem
+    · have := hle xs
+      simp only [List.filter_cons, hp, hq, if_true, if_false, Bool.false_eq_true,
+        List.length_cons]
+      omega
+    · have := ih hmem
+      cases hqx : q x <;> cases hpx : p x <;>
+        simp only [List.filter_cons, hqx, hpx, if_true, if_false, Bool.false_eq_true,
+          List.length_cons] <;> omega
+
+/-- **Progress of one claim.**  If `t` is pending and due, a claim hands out something, and
+either `t`'s key has left the pending scope (it is the one handed out) or `t` is still
+pending and strictly fewer entries can be handed out before it. -/
+theorem claim_progress (s s' : QState) (now now2 : Nat) (o : Option Entry) (t : Entry)
+    (ht : t ∈ s.pending) (hdue : t.ts ≤ now) (h : (s', o) ∈ claim s now now2) :
+    o.isSome = true ∧
+    (t ∉ s'.pending ∨ (t ∈ s'.pending ∧ notAfter s' t < notAfter s t)) := by
+  unfold claim at h
+  split at h
+  · rename_i hnil
+    -- impossible: something is due
+    have hnone : ∃ s', (s', (none : Option Entry)) ∈ claim s now now2 := by
+      unfold claim; rw [hnil]; exact ⟨s, by simp⟩
+    have := (claim_none_iff_nothing_due s now now2).mp hnone t ht
+    omega
+  · simp only [List.mem_map] at h
+    obtain ⟨e, he, heq⟩ := h
+    have hm := mem_claimChoices.mp he
+    simp only [claimWith, Prod.mk.injEq] at heq
+    obtain ⟨rfl, rfl⟩ := heq
+    refine ⟨rfl, ?_⟩
+    have hle : e.ts ≤ t.ts := hm.2 t ht hdue
+    by_cases hk : t.ts = e.ts ∧ t.name = e.name
+    · left
+      simp only [mem_kvDel]
+      exact fun hc => hc.2 hk
+    · right
+      refine ⟨mem_kvDel.mpr ⟨ht, hk⟩, ?_⟩
+      unfold notAfter
+      show ((kvDel s.pending e.ts e.name).filter _).length < _
+      unfold kvDel
+      apply length_filter_filter_lt s.pending _ _ e hm.1.1
+      · have hne : e.sameKey t.ts t.name = false := by
+          cases hs : e.sameKey t.ts t.name with
+          | false => rfl
+          | true =>
+            have := (sameKey_iff e t.ts t.name).mp hs
+            exact absurd ⟨this.1.symm, this.2.symm⟩ hk
+        simp [hle, hne]
+      · simp [Entry.sameKey]
+
+/-- What happens between two claims (requests scheduling follow-ups, tasks finishing or being
+re-scheduled) as far as `t` is concerned: `t` stays pending and nothing is put before it.
+Scheduling at or after the present satisfies this once `t` is overdue; re-scheduling `t`'s own
+name is covered by `soonest_keeps_earlier` instead. -/
+def EnvOk (t : Entry) (s s' : QState) : Prop :=
+  t ∈ s'.pending ∧ notAfter s' t ≤ notAfter s t
+
+/-- `t` has survived `k` claims, each made when `t` was due, with environment steps between. -/
+inductive Survives (t : Entry) : QState → Nat → Prop
+  | zero (s : QState) : t ∈ s.pending → Survives t s 0
+  | step (s s1 s2 : QState) (now now2 : Nat) (o : Option Entry) (k : Nat) :
+      t ∈ s.pending → EnvOk t s s1 → t.ts ≤ now → (s2, o) ∈ claim s1 now now2 →
+      t ∈ s2.pending → Survives t s2 k → Survives t s (k + 1)
+
+/-- **Bounded waiting.**  A due task cannot be passed over more often than there are entries
+that may go before it: after at most `notAfter s t` claims the next claim hands out `t`
+itself.  In particular every follow-up that was committed to the queue is eventually
+executed as long as the scheduler keeps claiming (and restarts do not lose it:
+`survives_restart`). -/
+theorem due_task_claimed_within (t : Entry) (s : QState) (k : Nat) (h : Survives t s k) :
+    k ≤ notAfter s t := by
+  induction h with
+  | zero s _ => exact Nat.zero_le _
+  | step s s1 s2 now now2 o k _ henv hdue hclaim hstill _ ih =>
+    have hp := claim_progress s1 s2 now now2 o t henv.1 hdue hclaim
+    rcases hp.2 with hgone | ⟨_, hlt⟩
+    · exact absurd hstill hgone
+    · have := henv.2
+      omega
+
+/-- Non-vacuity: a task behind two earlier ones survives two claims and no more. -/
+example :
+    let t : Entry := ⟨5, "sync", "v"⟩
+    let s : QState := ⟨[⟨3, "a", ""⟩, t, ⟨4, "b", ""⟩, ⟨9, "late", ""⟩], []⟩
+    notAfter s t = 2 ∧ t ∈ s.pending := by decide
+
 /-! ## Scheduling: soonest keeps the earlier time, if-missing keeps what exists -/
 
 /-- Re-scheduling a task (`TaskQueue::schedule`, `schedule_and_finish_existing`) keeps the
